@@ -9,8 +9,8 @@
     (regenerated from the Go AST on every run as Gen.FactsC12.table) a panic
     costs at most the offending connection. *)
 From Coq Require Import String Ascii List Bool Arith ZArith.
-From Raven Require Import Base.GoStr Model.Slicers Model.Service Spec.NoCrash
-  Proof.Slicers Proof.Service Gen.FactsC12.
+From Raven Require Import Base.GoStr Model.Slicers Model.SearchOr Model.Service Spec.NoCrash
+  Proof.Slicers Proof.SearchOr Proof.Service Gen.FactsC12.
 Import ListNotations.
 
 (** ================= function layer ================= *)
@@ -92,7 +92,23 @@ Theorem c12_bodystructure_single_total : forall raw : str,
 Proof. exact (fun r => total_of_iff _ _ _ (bs_single_body_none_iff r)). Qed.
 Print Assumptions c12_bodystructure_single_total.
 
+(** SEARCH: the OR case of evaluateTokens, every token list and cursor *)
+Theorem c12_search_or_exact : forall (tokens : list str) (i : nat),
+  or_step tokens i = None <-> classify_or tokens i = Some SearchOrArity.
+Proof. exact or_step_none_iff. Qed.
+Print Assumptions c12_search_or_exact.
+
+Theorem c12_search_or_total : forall (tokens : list str) (i : nat),
+  classify_or tokens i = None -> no_panic (or_step tokens i).
+Proof. exact (fun t i => total_of_iff _ _ _ (or_step_none_iff t i)). Qed.
+Print Assumptions c12_search_or_total.
+
 (** ---- the classes are inhabited on the tree as it is (known findings) ---- *)
+Theorem c12_refuted_search_or_arity :
+  exists tokens i, classify_or tokens i = Some SearchOrArity /\ or_step tokens i = None.
+Proof. exists [S_ "OR"; S_ "KEYWORD"; S_ "x"], 0. vm_compute. split; reflexivity. Qed.
+Print Assumptions c12_refuted_search_or_arity.
+
 Theorem c12_refuted_address_angle :
   exists a, classify_address_list a = Some AddressAngle /\ parse_address_list a = None.
 Proof. exists (S_ ">a<"). vm_compute. split; reflexivity. Qed.
